@@ -315,9 +315,9 @@ def placement_rules(ctx):
     # domain filter and presence test
     sd = P("storage_domain")
     filt = App("and", (App("is not", (sd, Const(None))), App("!=", (sd, dom))))
-    src = ast.unparse(fi.node)
-    has_filter = any(isinstance(s, App) and s == filt for o in outs for x in o.effects for s in subterms(x)) or \
-        "storage_domain is not None and storage_domain != domain" in src
+    filt_pos = [App("or", (App("is", (sd, Const(None))), App("==", (sd, dom)))), App("or", (App("==", (sd, dom)), App("is", (sd, Const(None)))))]
+    filt_neg = [filt, App("and", (App("!=", (sd, dom)), App("is not", (sd, Const(None)))))]
+    has_filter = any((g in filt_neg and not pol) or (g in filt_pos and pol) for g, pol in guards)
     R.check("C07-D2b placement", has_filter, "entries of other domains are skipped (filter compares the entry's own domain)", mod=fi.module,
             node=fi.node, function=fq, expected="if storage_domain is not None and storage_domain != entry['domain']: continue",
             found="filter not recognised")
@@ -377,24 +377,62 @@ def ordering_rules(ctx):
     R.check("C07-D3d add before write", len(adds) == 1 and adds[0].args[1] == App("elem", (P("envelopes"),)), "every input envelope is added",
             mod=fi.module, node=fi.node, function=fq, expected="storage.add_envelope(envelope) for envelope in envelopes", found=repr(adds)[:200])
     top = repo.func(IMG, "ImageCreator.create_files_for_boot")
-    src = ast.unparse(top.node)
-    writes = [n for n in ast.walk(top.node) if isinstance(n, ast.Call) and ((isinstance(n.func, ast.Attribute) and n.func.attr in (
-        "write_hex_file", "write", "tofile")) or (isinstance(n.func, ast.Name) and n.func.id == "open"))]
-    seq_ok = src.find(".sever()") < src.find("_create_suit_storage_files_for_boot") and src.find(".load(") < src.find(".sever()")
-    R.check("C07-D3d add before write", not writes and seq_ok, "create_files_for_boot loads and severs every input, writes nothing itself",
-            mod=top.module, node=top.node, function=ctx.fq(top), expected="load -> sever -> collect -> _create_suit_storage_files_for_boot",
-            found=f"{len(writes)} direct writes; order ok={seq_ok}")
-    # soc dispatch
+    touts = [o for o in ev.outcomes(top) if o.kind == "return"]
+    if len(touts) != 1:
+        raise AnalysisError(f"{ctx.fq(top)}: expected one normal outcome")
+    writes = [e for e in all_effects(touts[0].effects) if isinstance(e, App) and (e.op == "eff:write" or (
+        e.op == "eff:open" and len(e.args) > 1 and isinstance(e.args[1], Const) and isinstance(e.args[1].v, str) and set(e.args[1].v) & set("wax+"))
+        or (e.op == "eff:call" and isinstance(e.args[0], App) and e.args[0].op in ("meth:write_hex_file", "meth:tofile", "meth:write")))]
+    seq_ok, saw = True, False
+
+    def fname(c):
+        return c.args[0].obj.name if c.op == "call" and isinstance(c.args[0], Ref) and hasattr(c.args[0].obj, "name") else c.op
+    for seq in flatten_effects(touts[0].effects, twice=True):
+        names = [fname(e.args[0]) for e in seq if isinstance(e, App) and e.op == "eff:call" and isinstance(e.args[0], App)]
+        if "_create_suit_storage_files_for_boot" in names:
+            saw = True
+            i_create = names.index("_create_suit_storage_files_for_boot")
+            loads = [i for i, n in enumerate(names) if n == "load"]
+            severs = [i for i, n in enumerate(names) if n == "sever"]
+            if loads:
+                # every loaded envelope is severed before it is collected, everything before the storage is built
+                if len(severs) != len(loads) or any(sv < ld for ld, sv in zip(loads, severs)) or max(severs) > i_create:
+                    seq_ok = False
+    same_obj = True
+    for e in all_effects(touts[0].effects):
+        if isinstance(e, App) and e.op == "eff:call" and isinstance(e.args[0], App) and e.args[0].op == "meth:append":
+            appended = e.args[0].args[1]
+            sev = [x.args[0].args[1] for x in all_effects(touts[0].effects) if isinstance(x, App) and x.op == "eff:call" and isinstance(x.args[0], App)
+                   and fname(x.args[0]) == "sever"]
+            same_obj = same_obj and appended in sev
+    R.check("C07-D3d add before write", not writes and seq_ok and saw and same_obj, "create_files_for_boot loads and severs every input, writes nothing itself",
+            mod=top.module, node=top.node, function=ctx.fq(top), expected="load -> sever -> collect (the severed object) -> _create_suit_storage_files_for_boot",
+            found=f"{len(writes)} direct writes; order ok={seq_ok}; severed object collected={same_obj}")
+    # soc dispatch: the storage object that receives the envelopes, per SoC name
     R.rule("C07-D6 SoC dispatch", 2, "each SoC name selects its own layout class")
+    recv = [e.args[0].args[0] for e in all_effects(outs[0].effects) if isinstance(e, App) and e.op == "eff:call" and isinstance(e.args[0], App)
+            and e.args[0].op == "meth:add_envelope"]
+    if not recv:
+        raise AnalysisError(f"{fq}: storage object not recognised")
+    # guards of the whole function select the class: collect (soc literal -> class) from the if-structure
+    chosen = {}
+    for e, g in _with_guards(outs[0].effects):
+        if isinstance(e, App) and e.op == "eff:call" and isinstance(e.args[0], App) and e.args[0].op == "new" and isinstance(e.args[0].args[0], Ref):
+            c = e.args[0]
+            socs = [gc.args[1].v for gc, pol in g if pol and isinstance(gc, App) and gc.op == "==" and gc.args[0] == P("soc") and isinstance(gc.args[1], Const)]
+            socs += [gc.args[0].v for gc, pol in g if pol and isinstance(gc, App) and gc.op == "==" and gc.args[1] == P("soc") and isinstance(gc.args[0], Const)]
+            if len(socs) == 1:
+                pos = [a_ for a_ in c.args[1:] if not (isinstance(a_, Const) and isinstance(a_.v, tuple)) and not (isinstance(a_, App) and a_.op == "kw")]
+                kws = {a_.args[0].v: a_.args[1] for a_ in c.args[1:] if isinstance(a_, App) and a_.op == "kw"}
+                chosen[socs[0]] = (c.args[0].obj.name, pos[:1] == [P("storage_address")] and kws.get("kconfig") == P("config_file"), c)
     for soc, cname in (("nrf54h20", "EnvelopeStorageNrf54h20"), ("nrf9280", "EnvelopeStorageNrf9280")):
-        found = False
-        for n in ast.walk(fi.node):
-            if isinstance(n, ast.If) and isinstance(n.test, ast.Compare) and isinstance(n.test.comparators[0], ast.Constant) \
-                    and n.test.comparators[0].value == soc:
-                found = cname + "(" in "".join(ast.unparse(s) for s in n.body) and "kconfig=config_file" in "".join(
-                    ast.unparse(s) for s in n.body) and "storage_address" in "".join(ast.unparse(s) for s in n.body)
-        R.check("C07-D6 SoC dispatch", found, f"{soc} -> {cname}(storage_address, kconfig=config_file)", mod=fi.module, node=fi.node, function=fq,
-                expected=f"{cname}", found="not recognised", key_extra=soc)
+        got = chosen.get(soc)
+        R.check("C07-D6 SoC dispatch", got is not None and got[0] == cname and got[1] and any(got[2] in [x for _, x in cases(rv)] for rv in recv),
+                f"{soc} -> {cname}(storage_address, kconfig=config_file)", mod=fi.module, node=fi.node, function=fq,
+                expected=f"{cname}(storage_address, kconfig=config_file) receives the envelopes", found=f"{got[0] if got else 'no class'}", key_extra=soc)
+    unknown = [o for o in ev.outcomes(fi) if o.kind == "raise"]
+    R.check("C07-D6 SoC dispatch", bool(unknown), "an unknown SoC name is rejected", mod=fi.module, node=fi.node, function=fq,
+            expected="raise for any other name", found="falls through")
 
 
 def sever_rule(ctx):
